@@ -116,11 +116,13 @@ static void run_case(const std::string& cid, Toks& t) {
         // A (formula, n = P*B): a_ii = 2; for rows of rank p < P-1: a_{i, (p+1)B + i%B} = 1 + i%3.  One-directional chain of
         // messages of B values (above the eager limit for B >= 1024); integer data, every product is exact.
         int B = t.next_int(), tap = t.next_int(), ppn = t.next_int(), k = t.next_int();
+        bool both = B < 0; if (both) B = -B;       // B < 0: couplings in both directions (rows of rank p > 0 also reach into rank p-1)
         int P = g_np, n = P * B, p = g_rank;
         char buf[32]; snprintf(buf, sizeof buf, "%d", ppn); setenv("PPN", buf, 1);
         ParCOOMatrix* A0 = new ParCOOMatrix(n, n, B, B, p * B, p * B);
         for (int i = p * B; i < (p + 1) * B; i++) { A0->add_global_value(i, i, 2.0);
-            if (p < P - 1) A0->add_global_value(i, (p + 1) * B + i % B, 1.0 + i % 3); }
+            if (p < P - 1) A0->add_global_value(i, (p + 1) * B + i % B, 1.0 + i % 3);
+            if (both && p > 0) A0->add_global_value(i, (p - 1) * B + i % B, 2.0 + i % 2); }
         A0->finalize();
         ParCSRMatrix* A = A0->to_ParCSR();
         if (tap) A->init_tap_communicators();
@@ -133,8 +135,10 @@ static void run_case(const std::string& cid, Toks& t) {
             if (o == "F") A->mult(x, b, tap); else A->mult_T(x, b, tap);
             long bad = 0; int first = -1; double got = 0, want = 0;
             for (int l = 0; l < B; l++) { int i = p * B + l; double e = 2.0 * xval(i, q);
-                if (o == "F") { if (p < P - 1) e += (1.0 + i % 3) * xval((p + 1) * B + l, q); }
-                else if (p > 0) { int src = (p - 1) * B + l; e += (1.0 + src % 3) * xval(src, q); }
+                if (o == "F") { if (p < P - 1) e += (1.0 + i % 3) * xval((p + 1) * B + l, q);
+                                if (both && p > 0) e += (2.0 + i % 2) * xval((p - 1) * B + l, q); }
+                else { if (p > 0) { int src = (p - 1) * B + l; e += (1.0 + src % 3) * xval(src, q); }
+                       if (both && p < P - 1) { int src = (p + 1) * B + l; e += (2.0 + src % 2) * xval(src, q); } }
                 if (b.local[l] != e) { if (!bad) { first = i; got = b.local[l]; want = e; } bad++; } }
             verdict << " " << o << q << ":" << bad; if (bad) verdict << "@" << first << "=" << got << "!=" << want;
             bad_total += bad;
